@@ -346,6 +346,8 @@ def ccsds_generator(
             if not result:  # If there is verifiably no more data to add, break
                 break
             read_buffer += result
+        if len(read_buffer) - current_pos < skip_header_bytes + RawPacketData.HEADER_LENGTH_BYTES:
+            break  # The source is exhausted and what is left cannot hold a packet header
         # Skip the header bytes
         current_pos += skip_header_bytes
         header_bytes = read_buffer[current_pos:current_pos + RawPacketData.HEADER_LENGTH_BYTES]
@@ -362,6 +364,8 @@ def ccsds_generator(
             if not result:  # If there is verifiably no more data to add, break
                 break
             read_buffer += result
+        if len(read_buffer) - current_pos < n_bytes_packet:
+            break  # The source is exhausted before the end of the packet that the header declares
 
         # Consider it a counted packet once we've verified that we have read the full packet and parsed the header
         # Update the number of packets and bytes parsed
